@@ -4,6 +4,7 @@ A check = extract -> lake build (theorems, axioms) -> source audit -> correspond
 (model driver vs real code on the same op lines, plus the property's own predicate on the
 real outputs) -> known findings -> decision -> evidence.
 """
+import asyncio
 import fcntl
 import hashlib
 import json
@@ -299,7 +300,7 @@ def _check(area, pid, tier, seed, t0, args):
             cases.append(c)
     except subprocess.TimeoutExpired:
         raise
-    except Exception as e:                               # noqa
+    except (Exception, asyncio.CancelledError) as e:     # noqa
         # the harness drives the real code in-process and reads its objects: on the unchanged tree this never raises, so an
         # exception here means the code no longer behaves in a way the correspondence can even be evaluated on - the tie is
         # broken (reported like a broken correspondence: the search below looks for a failing input)
